@@ -2,6 +2,7 @@
 (normal pages, Level 2.5 enhancement, MOT / POP / DRCS / MIP / TOP pages, 8/30), caption + XDS + ITV streams,
 VPS, WSS, noise - every random choice comes from the `rng` passed in."""
 import ttxenc as T
+from ttxenh import pack_bits, x27_4, lut_packets, top_link
 
 MODES_COL = [0x00, 0x01, 0x02, 0x03, 0x06, 0x07, 0x08, 0x09, 0x0B, 0x0C, 0x0D, 0x0E, 0x0F] + list(range(0x10, 0x20))
 MODES_ROW = [0x00, 0x01, 0x04, 0x07, 0x10, 0x11, 0x12, 0x13, 0x15, 0x16, 0x17, 0x18, 0x1F, 0x08, 0x0A]
@@ -433,4 +434,595 @@ def search_ops(rng, net):
     for _ in range(rng.randrange(1, 6)):
         ops.append("next %d" % rng.choice([1, 1, -1]))
     if rng.random() < 0.5: ops.append("endsearch")
+    return ops
+
+
+# ------------------------------------------------------------------------------------------------
+# Structured Level 2.5 / 3.5 networks (MOT, X/27/4, POP / GPOP with pointer tables and object definitions, DRCS with
+# X/28/3, X/28 + M/29) and TOP networks (BTT, AIT, MPT, MPT-EX).  Mostly valid, with the damage a real broadcast
+# shows: unused / out-of-range / misdirected pointers, missing packets, pages first seen before their function is
+# known (cached at the plain size and converted at fetch time), retransmissions.  Layouts follow what libzvbi's
+# parsers read (packet.c parse_mot / parse_pop / parse_27 / parse_28_29 / parse_btt / parse_ait / parse_mpt[_ex]).
+TERM = (0x3F, 0x1F, 0x7F)
+
+
+class L25:
+    """one magazine with Level 2.5 / 3.5 structure"""
+    HEX_SYS = [0x1A, 0x2B, 0x3C, 0x4D, 0x5E, 0x6F, 0x7A, 0x0A, 0x7B, 0x70 + 0xC, 0xA0, 0xB5, 0xEE, 0xEF, 0xE0, 0x9A]
+
+    def __init__(self, rng):
+        r = self.rng = rng
+        self.m = r.randrange(1, 9)
+        self.serial = r.random() < 0.15
+        bcd = [0x00, 0x01, 0x09, 0x10, 0x23, 0x45, 0x50, 0x77, 0x98, 0x99]
+        self.lops = r.sample(bcd, r.randrange(1, 4))
+        sysp = r.sample(self.HEX_SYS, 6)
+        lowtens = [p for p in self.HEX_SYS if (p >> 4) <= 7]
+        # the GPOP / first POP are reachable through X/27/4 (tens <= 7) most of the time
+        self.gpop = r.choice(lowtens) if r.random() < 0.8 else sysp[0]
+        self.pops = []
+        for i in range(r.randrange(1, 3)):
+            p = r.choice(lowtens) if r.random() < 0.7 else sysp[1 + i]
+            if p != self.gpop and p not in self.pops:
+                self.pops.append(p)
+        if not self.pops:
+            self.pops = [next(p for p in self.HEX_SYS if p != self.gpop)]
+        used = set([self.gpop] + self.pops)
+        rest = [p for p in self.HEX_SYS if p not in used]
+        self.gdrcs, self.drcs = r.sample(rest, 2)
+        self.s1 = {p: (0 if r.random() < 0.6 else r.randrange(16)) for p in [self.gpop, self.gdrcs, self.drcs] + self.pops}
+        self.via = {p: r.choice(["x27", "x27", "mot", "mot", "both", "none"]) for p in self.lops}
+        self.pop_of = {p: r.randrange(len(self.pops)) for p in self.lops}
+        self.announce = r.random() < 0.35            # MIP tells the page types before the pages arrive
+        self.pop_with_x26 = r.random() < 0.5
+        self.defs = {}
+        self.make_objects()
+
+    def pgno(self, page):
+        return self.m * 256 + page
+
+    # --- objects ---------------------------------------------------------------------------------
+    def make_objects(self):
+        """per POP page: objects (type, ptr_packet 0..3, grp 0..3, half, pointer, body) and the pointer table"""
+        r = self.rng
+        for page in [self.gpop] + self.pops:
+            n = r.randrange(1, 7)
+            ptr_hi = r.random() < 0.2                # use pointer packets 3/4 too
+            objs, slots = [], set()
+            pos = 26 if ptr_hi else r.choice([0, 0, 13, 26])
+            for _ in range(n):
+                typ = r.randrange(1, 4)
+                slot = (r.randrange(4 if ptr_hi else 2), r.randrange(4), r.randrange(2), typ)
+                if slot in slots: continue
+                slots.add(slot)
+                body = self.obj_body(typ, page)
+                k = r.random()
+                if k < 0.12: pos = max(pos, 507 - 1 - min(len(body), r.randrange(1, 6)))   # at the very end of the table
+                elif k < 0.3: pos += r.randrange(0, 40)
+                if pos > 506: break
+                objs.append({"type": typ, "pp": slot[0], "grp": slot[1], "half": slot[2], "ptr": pos, "body": body})
+                pos += 1 + len(body) + (1 if r.random() < 0.7 else 0)
+            self.defs[page] = {"objs": objs, "ptr_hi": ptr_hi}
+
+    def obj_body(self, typ, page, depth=0):
+        r = self.rng
+        out = []
+        for _ in range(r.randrange(0, 12)):
+            k = r.random()
+            if k < 0.2:
+                out.append((40 + r.choice([0, 1, 2, 5, 10, 22, 23, r.randrange(24)]), 0x04, r.choice([0, 1, 20, 38, 39, r.randrange(40)])))
+            elif k < 0.3:
+                out.append((40 + r.randrange(24), r.choice([0x01, 0x00, 0x07, 0x10, 0x18]), r.randrange(128)))
+            elif k < 0.42 and depth < 3:
+                # nested invocation: mostly rising priority, sometimes same / lower (refused), cyclic through the table
+                nt = r.choice([typ + 1, typ + 1, 3, typ, 1, r.randrange(1, 4)])
+                nt = min(3, max(1, nt))
+                src = r.choice([48, 56, 56, 40])
+                out.append((src + r.randrange(4) + r.choice([0, 0, 4]), 0x10 + nt, self.s1.get(page, 0) | (r.randrange(2) << 4) | (r.randrange(4) << 5)))
+            elif k < 0.5:
+                out.append((r.choice([0, 1, 38, 39, r.randrange(40)]), 0x0D, (r.randrange(2) << 6) | r.choice([0, 1, 23, 47, 48, r.randrange(64)])))
+            else:
+                out.append((r.choice([0, 38, 39, r.randrange(40)]), r.choice(MODES_COL), r.randrange(128)))
+        return out
+
+    def invocation(self, page_of_lop, kind=None):
+        """X/26 triplets: position, optional origin modifier, object invocation that mostly matches a defined object"""
+        r = self.rng
+        out = []
+        row = r.choice([1, 2, 10, 22, 23, 24, r.randrange(1, 25)])
+        col = r.choice([0, 1, 20, 38, 39, r.randrange(40)])
+        out.append((40 + (row % 24), 0x04, col))
+        if r.random() < 0.3:
+            out.append((r.choice([0, 10, 39, r.randrange(40)]), r.choice([0x09, 0x00, 0x03, 0x0C]), r.randrange(0x20, 0x80)))
+        if r.random() < 0.3:
+            out.append((40 + r.choice([0, 1, 12, 23, r.randrange(24)]), 0x10, r.choice([0, 1, 39, 40, 71, 72, r.randrange(128)])))
+        kind = kind or r.choice(["gpop", "gpop", "pop", "pop", "local"])
+        if kind == "local":
+            out.append((40 + r.randrange(8), 0x10 + r.randrange(1, 4), (r.randrange(8) << 4) | r.choice([0, 5, 12, 13, 15])))
+            return out
+        page = self.gpop if kind == "gpop" else self.pops[self.pop_of[page_of_lop]]
+        objs = self.defs[page]["objs"]
+        base = 56 if kind == "gpop" else 48
+        if objs and r.random() < 0.85:
+            o = r.choice(objs)
+            typ, pp, grp, half = o["type"], o["pp"], o["grp"], o["half"]
+            if r.random() < 0.1: typ = r.randrange(1, 4)             # wrong type: points at another object's slot
+        else:
+            typ, pp, grp, half = r.randrange(1, 4), r.randrange(4), r.randrange(4), r.randrange(2)
+        s1 = self.s1[page] if r.random() < 0.9 else r.randrange(16)
+        out.append((base + pp + r.choice([0, 0, 4]), 0x10 + typ, s1 | (half << 4) | (grp << 5)))
+        return out
+
+    # --- pages -----------------------------------------------------------------------------------
+    def hdr(self, page, subcode=0, flags=None, text=None):
+        r = self.rng
+        f = (T.C4_ERASE if r.random() < 0.3 else 0) if flags is None else flags
+        if self.serial: f |= T.C11_SERIAL
+        return T.header(self.m, page, subcode, f, r.randrange(8) if r.random() < 0.3 else 0,
+                        text or "%1d%02X ZVBI L25 \x03%02d:%02d:%02d" % (self.m, page, r.randrange(24), r.randrange(60), r.randrange(60)))
+
+    def lop(self, page, flof=None):
+        r = self.rng
+        m = self.m
+        fl = 0
+        for bit, p in ((T.C4_ERASE, .3), (T.C5_NEWSFLASH, .04), (T.C6_SUBTITLE, .04), (T.C7_SUPPRESS, .04), (T.C8_UPDATE, .2), (T.C10_INHIBIT, .03)):
+            if r.random() < p: fl |= bit
+        pk = [self.hdr(page, r.choice([0, 0, 0, 1, 2]), fl)]
+        for y in range(1, 25):
+            if r.random() < 0.85: pk.append(T.addr(m, y) + rtext(r))
+        if (r.random() < 0.25) if flof is None else flof:
+            pk.append(T.x27_flof(m, [(self.pgno(r.choice(self.lops)), 0x3F7F) for _ in range(6)], r.choice([0xF, 0x7, 0x8, 0])))
+        via = self.via[page]
+        if via in ("x27", "both"):
+            pop = self.pops[self.pop_of[page]]
+            links = [(self.pgno(self.gpop), 0), (self.pgno(pop), 1), (self.pgno(self.gdrcs), 2), (self.pgno(self.drcs), 3), None, None]
+            if r.random() < 0.25:                    # libzvbi takes the normal DRCS page from link 25 (the POP slot)
+                links[1] = (self.pgno(self.drcs), 1)
+            if r.random() < 0.15: links[r.randrange(4)] = None
+            if r.random() < 0.1: links[r.randrange(4)] = (self.pgno(r.choice(self.lops + [self.gpop, self.drcs])), r.randrange(4))
+            links = [l if (l is None or ((l[0] >> 4) & 15) <= 7) else None for l in links]
+            pk.append(x27_4(m, links))
+        # X/26: invocations, DRCS characters, ordinary enhancements, terminator
+        trips = []
+        if r.random() < 0.9:
+            for _ in range(r.randrange(1, 5)):
+                k = r.random()
+                if k < 0.6: trips += self.invocation(page)
+                elif k < 0.85:
+                    if r.random() < 0.5: trips.append((40 + r.randrange(24), 0x18, (r.randrange(2) << 6) | r.choice([0, self.s1[self.drcs], self.s1[self.gdrcs], r.randrange(16)])))
+                    trips.append((40 + r.choice([1, 24 % 24, 23, r.randrange(24)]), 0x04, r.choice([0, 39, r.randrange(40)])))
+                    for _ in range(r.randrange(1, 4)):
+                        trips.append((r.choice([0, 1, 38, 39, r.randrange(40)]), 0x0D, (r.randrange(2) << 6) | r.choice([0, 1, 23, 46, 47, 48, 63, r.randrange(48)])))
+                else:
+                    trips += self.obj_body(0, page, depth=3)[:6]
+            k = r.random()
+            if k < 0.7: trips.append(TERM)
+            elif k < 0.8: trips.append((40, 0x15 + r.randrange(3), 0))   # object definition inside the page: terminates
+        if trips and r.random() < 0.9:
+            if r.random() < 0.1: trips = trips[:r.randrange(len(trips) + 1)]
+            n = (len(trips) + 12) // 13
+            ds = list(range(min(n, 16)))
+            if r.random() < 0.05 and len(ds) > 1: ds.pop(r.randrange(len(ds)))     # a lost X/26 packet
+            for d in ds:
+                pk.append(T.x26(m, d, trips[d * 13:(d + 1) * 13]))
+        k = r.random()
+        if k < 0.3: pk.append(T.x28(m, 28, r.choice([0, 0, 4, 1]), Net.x28_triplets(self, 0, 0)))
+        if k < 0.1: pk.append(T.x28(m, 28, r.choice([4, 1]), Net.x28_triplets(self, 0, 0)))
+        return pk
+
+    def pop_page(self, page, kind, with_x26=None, damage=True):
+        """POP / GPOP page: pointer packets 1,2 (3,4), object definitions in packets 3..25 and X/26/0..15"""
+        r = self.rng
+        m = self.m
+        d = self.defs[page]
+        ptr_hi = d["ptr_hi"]
+        with_x26 = self.pop_with_x26 if with_x26 is None else with_x26
+        area = [None] * 507
+        table = {}
+        for o in d["objs"]:
+            p = o["ptr"]
+            i = o["grp"] * 3 + o["type"]
+            val = p
+            if damage:
+                k = r.random()
+                if k < 0.10: val = 511                                        # unused (EN 300 706 10.5.1.2)
+                elif k < 0.14: val = r.choice([507, 508, 510])                # out of range
+                elif k < 0.19: val = min(506, p + 1)                          # points into the body, not at a definition
+                elif k < 0.22: val = r.randrange(507)
+            table[(o["pp"], i, o["half"])] = val
+            addr = 40 + o["pp"] + r.choice([0, 4, 8, 16])
+            dat = self.s1[page] | (o["half"] << 4) | (o["grp"] << 5)
+            seq = [(addr, 0x14 + o["type"], dat)] + o["body"]
+            if r.random() < 0.7: seq.append(TERM)
+            for j, t in enumerate(seq):
+                if p + j <= 506: area[p + j] = t
+        pk = [self.hdr(page, self.s1[page] | (r.choice([0, 0, 0x10, 0x100]) if r.random() < 0.2 else 0))]
+        if r.random() < 0.2:     # X/28/0 naming the function: libzvbi ignores everything but function 0
+            pk.append(T.x28(m, 28, 0, Net.x28_triplets(self, 2 if kind == "pop" else 1, 3)))
+        def ptr_packet(k):
+            t = [r.randrange(1 << 18)]
+            for i in range(1, 13):
+                lo = table.get((k, i, 0), 511 if r.random() < 0.8 else r.randrange(512))
+                hi = table.get((k, i, 1), 511 if r.random() < 0.8 else r.randrange(512))
+                t.append(lo | (hi << 9))
+            b = [T.ham8(1 if r.random() < 0.95 else r.choice([0, 3, 5]))]
+            for v in t: b += T.ham24(v)
+            return T.addr(m, k + 1) + b
+        def trip_packet(y, desig, lo):
+            b = [T.ham8(desig)]
+            for j in range(13):
+                t = area[lo + j] if lo + j <= 506 else None
+                if t is None: t = TERM if r.random() < 0.9 else (r.randrange(64), r.randrange(32), r.randrange(128))
+                b += T.triplet(*t)
+            return T.addr(m, y) + b
+        for k in range(4 if ptr_hi else 2):
+            if r.random() < 0.95: pk.append(ptr_packet(k))
+        last = max([o["ptr"] + len(o["body"]) + 2 for o in d["objs"]] + [0])
+        for y in range(3, 26):
+            lo = (y - 3) * 13
+            if ptr_hi and y <= 4: continue
+            if lo > last and r.random() < 0.8: continue
+            if r.random() < 0.95: pk.append(trip_packet(y, 0, lo))
+        if with_x26 or last >= 23 * 13:
+            for dsg in range(16):
+                lo = (23 + dsg) * 13
+                if lo > last and not (dsg == 0 and with_x26): continue
+                pk.append(trip_packet(26, dsg, lo))
+        return pk
+
+    def drcs_page(self, page, kind, x28=None):
+        r = self.rng
+        m = self.m
+        pk = [self.hdr(page, self.s1[page])]
+        if (r.random() < 0.5) if x28 is None else x28:
+            modes = [r.choice([0, 0, 1, 2, 3, 14, 15, r.randrange(16)]) for _ in range(48)]
+            if r.random() < 0.3: modes = [r.choice([0, 1, 2, 3])] * 48
+            if r.random() < 0.3: modes[47] = r.choice([1, 2, 3]); modes[46] = r.choice([0, 1, 2]); modes[45] = r.choice([0, 2])
+            fields = [(4 if kind == "gdrcs" else 5, 4), (r.randrange(8), 3), (r.randrange(1 << 11), 11)] + [(mo, 4) for mo in modes]
+            pk.append(T.x28(m, 28, 3, pack_bits(fields)))
+        for y in range(1, 25):
+            if r.random() < 0.9:
+                pk.append(T.addr(m, y) + [T.par(r.randrange(0x40, 0x80)) if r.random() < 0.97 else r.randrange(256) for _ in range(40)])
+        return pk
+
+    def mot(self, damage=True):
+        r = self.rng
+        m = self.m
+        vals = {}
+        for p in self.lops:
+            if self.via[p] in ("mot", "both"):
+                vals[p] = (1 + self.pop_of[p], r.choice([1, 1, 2, 0]))
+            elif r.random() < 0.3:
+                vals[p] = (r.randrange(8), r.randrange(8))
+        if damage and r.random() < 0.3:
+            for _ in range(r.randrange(1, 10)): vals[r.randrange(256)] = (r.randrange(16), r.randrange(16))
+        pk = [self.hdr(0xFE, 0)]
+        pk += lut_packets(m, vals, r, 0.95)
+        def pop_entry(page, lvl):
+            if page is None:
+                return [T.ham8(v) for v in (m & 7, 0xF, 0xF, 0, 1, 0, 0, 0, 0, 0)]
+            objs = self.defs.get(page, {"objs": []})["objs"]
+            ty, ad = [0, 0], [0, 0]
+            for k in range(2):
+                if r.random() < 0.6:
+                    if objs and r.random() < 0.8:
+                        o = r.choice(objs)
+                        ty[k] = o["type"]
+                        ad[k] = self.s1[page] | (o["half"] << 4) | (o["grp"] << 5) | ((o["pp"] & 1) << 7)
+                    else:
+                        ty[k] = r.randrange(4); ad[k] = r.randrange(256)
+            return [T.ham8(v) for v in (m & 7, page >> 4, page & 15, r.randrange(16), r.choice([1, 0, 2, 4, 6, 8]),
+                                        ty[0] | (ty[1] << 2), ad[0] & 15, ad[0] >> 4, ad[1] & 15, ad[1] >> 4)]
+        ent = [self.gpop] + self.pops + [None] * 8
+        if damage and r.random() < 0.2: ent[r.randrange(4)] = r.choice(self.lops + [self.drcs, None])
+        for y, lo in ((19, 0), (20, 4)):
+            if r.random() < 0.95:
+                b = []
+                for i in range(4): b += pop_entry(ent[lo + i], 0)
+                pk.append(T.addr(m, y) + b)
+        if r.random() < 0.4:      # Level 3.5 table: other pages or dead links
+            ent35 = [r.choice([self.gpop, None] + self.pops)] + [r.choice(self.pops + [None]) for _ in range(7)]
+            for y, lo in ((22, 0), (23, 4)):
+                b = []
+                for i in range(4): b += pop_entry(ent35[lo + i], 1)
+                pk.append(T.addr(m, y) + b)
+        def drcs_entries(pages):
+            b = []
+            for p in pages:
+                b += [T.ham8(m & 7), T.ham8(0xF if p is None else p >> 4), T.ham8(0xF if p is None else p & 15), T.ham8(r.randrange(16))]
+            return b
+        dl = [self.gdrcs, self.drcs, self.drcs if r.random() < 0.5 else None] + [None] * 5
+        if damage and r.random() < 0.2: dl[r.randrange(3)] = r.choice(self.pops + self.lops)
+        if r.random() < 0.95: pk.append(T.addr(m, 21) + drcs_entries(dl) + [T.ham8(0)] * 8)
+        if r.random() < 0.3: pk.append(T.addr(m, 24) + drcs_entries([r.choice([self.gdrcs, None]), r.choice([self.drcs, None])] + [None] * 6) + [T.ham8(0)] * 8)
+        return [p[:42] for p in pk]
+
+    def mip(self):
+        r = self.rng
+        vals = {}
+        def put(page, code): vals[page] = (code & 15, code >> 4)
+        for p in self.lops: put(p, r.choice([0x01, 0x01, 0x02, 0x10, 0x00]))
+        put(self.gpop, r.choice([0xE6, 0xEC, 0xEF])); put(self.gdrcs, r.choice([0xE5, 0xE8, 0xEB]))
+        for p in self.pops: put(p, r.choice([0xE6, 0xED]))
+        put(self.drcs, r.choice([0xE5, 0xE9]))
+        if r.random() < 0.3:
+            for _ in range(r.randrange(1, 6)): put(r.randrange(256), r.randrange(256))
+        return [self.hdr(0xFD, 0)] + lut_packets(self.m, vals, r, 0.95)
+
+    def filler(self):
+        return T.header(self.m, 0xFF, 0x3F7F, T.C11_SERIAL if self.serial else 0, 0, "filler")
+
+    def page(self, what):
+        kind, page = what
+        if kind == "lop": pk = self.lop(page)
+        elif kind == "gpop": pk = self.pop_page(page, "gpop")
+        elif kind == "pop": pk = self.pop_page(page, "pop")
+        elif kind == "bare":       # a future POP / DRCS page without X/26, function unknown: cached at the plain size
+            pk = self.pop_page(page, "pop", with_x26=False) if page in self.defs else self.drcs_page(page, "drcs", x28=False)
+            pk = [p for p in pk if not (T.addr(self.m, 26) == p[:2] or T.addr(self.m, 28) == p[:2])]
+        elif kind == "gdrcs": pk = self.drcs_page(page, "gdrcs")
+        elif kind == "drcs": pk = self.drcs_page(page, "drcs")
+        elif kind == "mot": pk = self.mot()
+        else: pk = self.mip()
+        return pk + [self.filler()]
+
+    def all_sys(self):
+        return [("gpop", self.gpop)] + [("pop", p) for p in self.pops] + [("gdrcs", self.gdrcs), ("drcs", self.drcs)]
+
+    def phases(self):
+        """list of phases; a phase is a list of packets.  Orders: system pages before anything names them (converted
+        at fetch time), announced by MIP + MOT first, or mixed; then retransmissions"""
+        r = self.rng
+        order = r.choice(["late", "late", "announced", "mixed"])
+        ph = []
+        sysp = self.all_sys()
+        lops = [("lop", p) for p in self.lops]
+        if order == "late" and not self.announce:
+            first = [(("bare", p) if r.random() < 0.6 else (k, p)) for k, p in sysp]
+            r.shuffle(first)
+            ph.append(first + lops)
+            if r.random() < 0.6: ph.append([("mot", 0xFE)])
+        elif order == "announced" or self.announce:
+            ph.append(([("mip", 0xFD)] if r.random() < 0.8 else []) + [("mot", 0xFE)] + sysp + lops)
+        else:
+            allp = sysp + lops + [("mot", 0xFE)]
+            r.shuffle(allp)
+            ph.append(allp)
+        for _ in range(r.randrange(1, 4)):
+            k = r.random()
+            if k < 0.4: nxt = r.sample(sysp, r.randrange(1, len(sysp) + 1))          # retransmission of converted pages
+            elif k < 0.7: nxt = lops + r.sample(sysp, 1)
+            else: nxt = [("mot", 0xFE)] + r.sample(sysp + lops, 2)
+            ph.append(nxt)
+        out = []
+        for p in ph:
+            pk = []
+            for w in p: pk += self.page(w)
+            out.append(pk)
+        return out
+
+    def queries(self, heavy=True):
+        r = self.rng
+        ops = []
+        for p in r.sample(self.lops, len(self.lops)):
+            lvl = r.choice([2, 2, 3, 3, 1, 0])
+            ops.append("fetch %x %x %d %d %d" % (self.pgno(p), r.choice([0x3F7F, 0x3F7F, 0]), lvl, r.choice([25, 25, 25, 24, 1]), r.randrange(2)))
+            for _ in range(r.randrange(0, 3 if heavy else 2)):
+                k = r.randrange(8)
+                if k == 0: ops.append("resolve")
+                elif k == 1: ops.append("print %d %d" % (r.randrange(2), r.choice([40, 1000, 4000])))
+                elif k == 2: ops.append("export %s -1" % r.choice(["text", "html", "ppm", "png", "xpm", "vtx"]))
+                elif k == 3: ops.append("render %d %d %d" % (r.choice([32, 32, 6]), r.randrange(2), r.randrange(2)))
+                elif k == 4:
+                    c, w = r.randrange(40), r.randrange(25)
+                    ops.append("region 32 %d %d %d %d" % (c, w, r.randrange(1, 41 - c), r.randrange(1, 26 - w)))
+                elif k == 5: ops.append("classify %x" % self.pgno(r.choice(self.lops + [self.gpop, self.drcs, 0xFE])))
+                elif k == 6: ops.append("title %x 0" % self.pgno(r.choice(self.lops)))
+                else: ops.append("cached %x %x" % (self.pgno(r.choice([self.gpop, self.drcs] + self.pops)), r.choice([0, 0x3F7F])))
+        if r.random() < 0.15:
+            ops.append("fetch %x 3f7f %d 25 1" % (self.pgno(r.choice([self.gpop, self.drcs, 0xFE, 0xFD])), r.randrange(4)))
+        return ops
+
+
+class TopNet:
+    """TOP network: BTT 1F0 (page types in packets 1-20, links in 21-23), AIT / MPT / MPT-EX pages, LOP pages in
+    several magazines"""
+
+    def __init__(self, rng):
+        r = self.rng = rng
+        cand = [0x100, 0x101, 0x109, 0x110, 0x150, 0x199, 0x200, 0x234, 0x300, 0x399, 0x400, 0x555, 0x700, 0x799, 0x800, 0x850, 0x899]
+        self.lops = sorted(r.sample(cand, r.randrange(2, 7)))
+        if r.random() < 0.5 and 0x100 not in self.lops: self.lops.insert(0, 0x100)
+        self.hexp = r.sample([0x1AB, 0x2FA, 0x8FE, 0x10A, 0x7CC], r.randrange(0, 2))
+        self.ait = r.sample([0x1F1, 0x1F2, 0x2F0, 0x8F5], r.randrange(1, 3))
+        self.mpt = r.choice([0x1F3, 0x1F4])
+        self.mptex = r.choice([0x1F5, 0x3F1])
+        # which pages are block / group pages
+        self.layout = r.choice(["std", "std", "none", "none", "high", "normal", "random", "groups"])
+        self.types = {}
+        allp = self.lops
+        if self.layout == "std":
+            for i, p in enumerate(allp): self.types[p] = 4 if i == 0 or r.random() < 0.2 else r.choice([6, 8, 8, 9, 1, 2])
+            self.types.setdefault(0x100, 4)
+        elif self.layout == "high":
+            for p in allp: self.types[p] = 8
+            self.types[max(allp)] = r.choice([4, 5, 6])
+        elif self.layout == "normal":
+            for p in allp: self.types[p] = r.choice([8, 9, 10, 11, 1])
+        elif self.layout == "groups":
+            for p in allp: self.types[p] = r.choice([6, 7, 8])
+        elif self.layout == "random":
+            for p in allp: self.types[p] = r.randrange(16)
+        self.titles = [p for p in allp if self.types.get(p, 0) in (4, 5, 6, 7) or r.random() < 0.2]
+        self.serial = r.random() < 0.15
+
+    def hdr(self, pgno, subcode=0, flags=None):
+        r = self.rng
+        f = (T.C4_ERASE if r.random() < 0.3 else 0) if flags is None else flags
+        if self.serial: f |= T.C11_SERIAL
+        return T.header(pgno >> 8, pgno & 255, subcode, f, 0, "%03X TOP \x03%02d:%02d" % (pgno, r.randrange(24), r.randrange(60)))
+
+    def filler(self, pgno):
+        return T.header(pgno >> 8, 0xFF, 0x3F7F, T.C11_SERIAL if self.serial else 0, 0, "filler")
+
+    def btt(self, with_types=None, with_links=True):
+        r = self.rng
+        pk = [self.hdr(0x1F0)]
+        with_types = (self.layout != "none") if with_types is None else with_types
+        if with_types:
+            for packet in range(1, 21):
+                b = []
+                first = 100 + (packet - 1) * 40
+                anyp = False
+                for k in range(40):
+                    d = first + k
+                    pgno = ((d // 100) << 8) | (((d // 10) % 10) << 4) | (d % 10)
+                    code = self.types.get(pgno, 0 if r.random() < 0.97 else r.randrange(16))
+                    anyp = anyp or code != 0
+                    b.append(T.ham8(code) if r.random() < 0.995 else r.randrange(256))
+                if anyp or r.random() < 0.5: pk.append(T.addr(1, packet) + b)
+        if with_links:
+            links = [(a, 2) for a in self.ait] + [(self.mpt, 1), (self.mptex, 3)]
+            if r.random() < 0.3: r.shuffle(links)
+            if r.random() < 0.2: links.append((r.choice(self.lops), r.randrange(4)))
+            links = links[:15]
+            for packet in (21, 22, 23):
+                b = []
+                for i in range(5):
+                    j = (packet - 21) * 5 + i
+                    if j < len(links): b += top_link(links[j][0], r.choice([0, 0, 0x3F7F, 1]), links[j][1])
+                    else: b += top_link(0xFFF if r.random() < 0.8 else r.randrange(0x1000), 0, r.randrange(16))
+                if packet == 21 or r.random() < 0.6: pk.append(T.addr(1, packet) + b)
+        return pk + [self.filler(0x1F0)]
+
+    def ait_page(self, pgno):
+        r = self.rng
+        m = pgno >> 8
+        ts = list(self.titles)
+        if len(self.ait) > 1:      # split the titles over the AIT pages
+            k = self.ait.index(pgno)
+            ts = ts[k::len(self.ait)]
+        if r.random() < 0.2: ts += [r.choice(self.lops)]      # duplicate
+        if r.random() < 0.2: r.shuffle(ts)
+        ent = []
+        for p in ts:
+            title = r.choice(WORDS) + " " + r.choice(WORDS)
+            ent.append(top_link(p, 0x3F7F, r.randrange(16)) + ([T.par(ord(c)) for c in title[:12]] + [T.par(0x20)] * 12)[:12])
+        while len(ent) < 46 and r.random() < 0.2:
+            ent.append(top_link(r.randrange(0x1000), r.randrange(0x4000), 0) + rtext(r, 12, 0.05))
+        pk = [self.hdr(pgno)]
+        for y in range(1, 24):
+            a = ent[(y - 1) * 2] if (y - 1) * 2 < len(ent) else None
+            b = ent[(y - 1) * 2 + 1] if (y - 1) * 2 + 1 < len(ent) else None
+            if a is None and b is None and r.random() < 0.7: continue
+            blank = top_link(0, 0, 0) + [T.par(0x20)] * 12
+            pk.append(T.addr(m, y) + (a or blank) + (b or blank))
+        return pk + [self.filler(pgno)]
+
+    def mpt_page(self):
+        r = self.rng
+        pk = [self.hdr(self.mpt)]
+        for packet in range(1, 21):
+            if r.random() < 0.5:
+                pk.append(T.addr(self.mpt >> 8, packet) + [T.ham8(r.choice([0, 1, 1, 2, 9, 10, 15])) if r.random() < 0.99 else r.randrange(256) for _ in range(40)])
+        return pk + [self.filler(self.mpt)]
+
+    def mptex_page(self):
+        r = self.rng
+        pk = [self.hdr(self.mptex)]
+        for packet in range(1, r.randrange(2, 6)):
+            b = []
+            for _ in range(5):
+                b += top_link(r.choice(self.lops + [0, 0x8FF, 0x900]), r.choice([0, 1, 0x12, 0x79, 0x3F7F]), r.randrange(16))
+            pk.append(T.addr(self.mptex >> 8, packet) + b)
+        return pk + [self.filler(self.mptex)]
+
+    def lop(self, pgno):
+        r = self.rng
+        m = pgno >> 8
+        fl = 0
+        for bit, p in ((T.C4_ERASE, .3), (T.C5_NEWSFLASH, .03), (T.C6_SUBTITLE, .03), (T.C8_UPDATE, .2)):
+            if r.random() < p: fl |= bit
+        pk = [self.hdr(pgno, r.choice([0, 0, 1]), fl)]
+        for y in range(1, 25):
+            if r.random() < 0.8: pk.append(T.addr(m, y) + rtext(r))
+        if r.random() < 0.15:
+            pk.append(T.x27_flof(m, [(r.choice(self.lops), 0x3F7F) for _ in range(6)], r.choice([0xF, 0x7])))
+        return pk + [self.filler(pgno)]
+
+    def phases(self):
+        r = self.rng
+        top = [self.btt()] + [self.ait_page(a) for a in self.ait]
+        if r.random() < 0.7: top.append(self.mpt_page())
+        if r.random() < 0.7: top.append(self.mptex_page())
+        order = r.choice(["btt-first", "btt-first", "btt-last", "mixed"])
+        if order == "btt-last": top = top[1:] + top[:1]
+        elif order == "mixed": r.shuffle(top)
+        pages = [self.lop(p) for p in self.lops + self.hexp]
+        ph = []
+        first = []
+        for pk in (top + pages if r.random() < 0.7 else pages + top): first += pk
+        ph.append(first)
+        for _ in range(r.randrange(1, 3)):
+            nxt = []
+            k = r.random()
+            if k < 0.5:          # second cycle: AIT / MPT pages seen before the BTT get their function now
+                for a in self.ait: nxt += self.ait_page(a)
+                nxt += self.mpt_page() + self.mptex_page()
+            elif k < 0.8:
+                nxt += self.btt(with_types=r.random() < 0.7)
+                for a in r.sample(self.ait, 1): nxt += self.ait_page(a)
+            else:
+                for p in r.sample(self.lops, 1): nxt += self.lop(p)
+                nxt += self.btt()
+            ph.append(nxt)
+        return ph
+
+    def queries(self):
+        r = self.rng
+        ops = []
+        for p in r.sample(self.lops + self.hexp, min(len(self.lops + self.hexp), r.randrange(1, 5))):
+            ops.append("fetch %x %x %d %d %d" % (p, r.choice([0x3F7F, 0]), r.randrange(4), r.choice([25, 25, 25, 25, 24, 1]), r.choice([1, 1, 1, 0])))
+            k = r.randrange(6)
+            if k == 0: ops.append("resolve")
+            elif k == 1: ops.append("export %s -1" % r.choice(["text", "html", "png"]))
+            elif k == 2: ops.append("render 32 1 1")
+            elif k == 3: ops.append("print 1 2000")
+        for _ in range(r.randrange(0, 4)):
+            k = r.randrange(4)
+            pg = r.choice(self.lops + self.ait + [self.mpt, 0x1F0, 0x100, 0x8FF])
+            if k == 0: ops.append("title %x %x" % (pg, r.choice([0, 0x3F7F])))
+            elif k == 1: ops.append("classify %x" % pg)
+            elif k == 2: ops.append("hisub %x" % pg)
+            else:
+                ops.append("fetch 900 %x %d 25 %d" % (r.choice([0x3F7F, 0, 1, 2, 0x10]), r.randrange(4), r.randrange(2)))
+                if r.random() < 0.5: ops.append(r.choice(["resolve", "export text -1", "render 32 0 0", "export html -1"]))
+        return ops
+
+
+def enh_case(rng, kind):
+    """op lines of one structured Level 2.5 (`l25`), TOP (`top`) or combined (`l25top`) case, without the final `delete`"""
+    nets = []
+    if kind in ("l25", "l25top"): nets.append(L25(rng))
+    if kind in ("top", "l25top"): nets.append(TopNet(rng))
+    phases = [n.phases() for n in nets]
+    ops, t = [], 0
+    for i in range(max(len(p) for p in phases)):
+        pk = []
+        for p in phases:
+            if i < len(p): pk += p[i]
+        if rng.random() < 0.12:
+            pk = [noise(rng, p, rng.choice([0.003, 0.01])) for p in pk]
+        if rng.random() < 0.05 and len(pk) > 4:
+            del pk[rng.randrange(len(pk))]            # a lost packet
+        lines = [(T.SL_TTX, rng.choice([7, 8, 20, 21, 320]), p) for p in pk]
+        o, t = frames_to_ops(rng, lines, t, per_frame=(4, 16))
+        ops += o
+        for n in nets:
+            for _ in range(rng.randrange(1, 3)):
+                ops += n.queries()
+        if rng.random() < 0.25:
+            ops += search_ops(rng, Net(rng))
+        if rng.random() < 0.04:
+            ops.append("chsw %d" % rng.randrange(3))
     return ops
